@@ -169,6 +169,22 @@ class CFG:
             subj = self._new("stmt", ast.Expr(value=st.subject), st)
             self.node_of_stmt[st] = subj
             self._connect(preds, subj)
+            tests = [_case_test(st.subject, case) for case in st.cases]
+            if all(t is not None for t in tests):
+                # value patterns: the match is a chain of equality tests on the subject (decidable by the rules like an if/elif chain)
+                outs = []
+                cur: list[tuple[Node, str]] = [(subj, "")]
+                for case, t in zip(st.cases, tests):
+                    if isinstance(t, ast.Constant) and t.value is True:
+                        outs += self._build(case.body, cur)
+                        cur = []
+                        break
+                    tn = self._new("test", t, st)
+                    self._connect(cur, tn)
+                    self._exc_edges(tn)
+                    outs += self._build(case.body, [(tn, "T")])
+                    cur = [(tn, "F")]
+                return outs + cur
             outs = []
             for case in st.cases:
                 outs += self._build(case.body, [(subj, "case")])
@@ -313,6 +329,34 @@ class CFG:
                 nc[s.id] = c + 1
                 stack.append((s, path + [s], nc))
         return out
+
+
+def _case_test(subject: ast.expr, case: ast.match_case) -> ast.expr | None:
+    """The condition under which a `case` with a value pattern is taken, as an ordinary expression (None: pattern too rich)."""
+    def pat(p: ast.pattern) -> ast.expr | None:
+        if isinstance(p, ast.MatchValue):
+            return ast.copy_location(ast.Compare(left=subject, ops=[ast.Eq()], comparators=[p.value]), p)
+        if isinstance(p, ast.MatchSingleton):
+            return ast.copy_location(ast.Compare(left=subject, ops=[ast.Is()], comparators=[ast.Constant(value=p.value)]), p)
+        if isinstance(p, ast.MatchOr):
+            parts = [pat(x) for x in p.patterns]
+            if any(x is None for x in parts):
+                return None
+            return ast.copy_location(ast.BoolOp(op=ast.Or(), values=parts), p)
+        if isinstance(p, ast.MatchAs) and p.pattern is None:
+            return ast.copy_location(ast.Constant(value=True), p)  # `case _` / `case name`
+        return None
+
+    t = pat(case.pattern)
+    if t is None:
+        return None
+    if case.guard is not None:
+        if isinstance(case.pattern, ast.MatchAs) and case.pattern.name is not None:
+            return None  # the guard talks about the captured name
+        if isinstance(t, ast.Constant) and t.value is True:
+            return case.guard
+        return ast.copy_location(ast.BoolOp(op=ast.And(), values=[t, case.guard]), case.pattern)
+    return t
 
 
 def must_edges(cfg: CFG, src: Node, dst: Node, limit: int = 20000) -> set[tuple[Node, str]] | None:
